@@ -485,6 +485,9 @@ SITES = [
     Site("alloc_array", "lib/lpc/array.c", "allocate_array", [], "Illegal array size.\n"),
     Site("alloc_empty_array", "lib/lpc/array.c", "allocate_empty_array", [], "Illegal array size.\n"),
     Site("alloc_buffer", "lib/lpc/buffer.c", "allocate_buffer", [], "Illegal buffer size.\n"),
+    # array / string builders: size checks in front of the allocation
+    Site("add_array", "lib/lpc/array.c", "add_array", [], "result of array addition is greater than maximum array size.\n"),
+    Site("implode", "lib/lpc/array.c", "implode_string", [], "implode: String too large.\n"),
     # value stack checks
     Site("stack_push_undefineds", "src/stack.c", "push_undefineds", [], "***Stack overflow!"),
     Site("stack_push_some_svalues", "src/stack.c", "push_some_svalues", [], "***Stack overflow!"),
@@ -778,6 +781,59 @@ def extract_explode(bdir):
             raise TieBroken("explode:" + name, "store index is not a function of num")
     same_index(stores_loop, "explodeLoopIdx", "explode_string(): index of the stores inside the fill loop, ret->item[..]")
     same_index(stores_last, "explodeLastIdx", "explode_string(): index of the last-piece store after the loop, ret->item[..]")
+    return "\n".join(out)
+
+
+# ---------------------------------------------------------------------------------------------------------------
+# add_array() / implode_string(): the size expressions that are allocated
+
+def extract_builder_sizes(bdir):
+    out = []
+    # add_array: `res = p->size + r->size;`
+    fn = ast_function(bdir, "lib/lpc/array.c", "add_array")
+    found = []
+
+    def v1(n, _):
+        if n.get("kind") == "BinaryOperator" and n.get("opcode") == "=" and _is_ref(n["inner"][0], "res"):
+            found.append(n["inner"][1])
+    _walk(fn, v1)
+    if len(found) != 1:
+        raise TieBroken("add_array:res", "add_array(): `res = ...` not found exactly once")
+    tr = Tr()
+    try:
+        ex = tr.int_expr(found[0])
+    except OutOfGrammar as e:
+        raise TieBroken("add_array:res", "res left the grammar: %s" % e)
+    if [p[0] for p in tr.params] != ["size", "size2"]:
+        raise TieBroken("add_array:res", "unexpected operands of res: %s" % (tr.params,))
+    out.append(lean_def("addArrayRes", tr, ex, "add_array(): `res = %s` (allocated and filled: p first, r after)" % c_text(found[0]), "Int"))
+    # every allocation / resize of add_array uses `res`
+    allocs = []
+
+    def v2(n, _):
+        if n.get("kind") == "CallExpr" and callee_name(n) in ("allocate_empty_array", "allocate_array") and len(n["inner"]) > 1:
+            allocs.append(c_text(strip(n["inner"][1])))
+    _walk(fn, v2)
+    if not allocs or any(a != "res" for a in allocs):
+        raise TieBroken("add_array:alloc", "add_array(): allocation argument is not `res`: %s" % allocs)
+    # implode_string: the argument of new_string
+    fn = ast_function(bdir, "lib/lpc/array.c", "implode_string")
+    args = []
+
+    def v3(n, _):
+        if n.get("kind") == "CallExpr" and callee_name(n) in ("new_string", "int_new_string") and len(n["inner"]) > 1:
+            args.append(n["inner"][1])
+    _walk(fn, v3)
+    if len(args) != 1:
+        raise TieBroken("implode:alloc", "implode_string(): new_string call not found exactly once")
+    tr = Tr()
+    try:
+        ex = tr.int_expr(args[0])
+    except OutOfGrammar as e:
+        raise TieBroken("implode:alloc", "allocation size left the grammar: %s" % e)
+    if [p[0] for p in tr.params] != ["size", "num", "del_len"]:
+        raise TieBroken("implode:alloc", "unexpected operands of the allocation size: %s" % (tr.params,))
+    out.append(lean_def("implodeAlloc", tr, ex, "implode_string(): `new_string (%s)`" % c_text(args[0]), "Int"))
     return "\n".join(out)
 
 
@@ -1088,6 +1144,7 @@ def generate_all(bdir, tvals):
 
     def p_explode():
         parts.append(extract_explode(bdir))
+        parts.append(extract_builder_sizes(bdir))
 
     for f in (p_guards, p_stack, p_efuns, p_format, p_explode, p_error):
         part(f)
